@@ -74,6 +74,12 @@ func NewFuzzySearcher(indexReader search.Reader, term string,
 
 func findFuzzyCandidateTerms(indexReader search.Reader, term string,
 	fuzziness int, field, prefixTerm string) (terms []string, boosts []float64, err error) {
+	if fuzziness == 0 {
+		// no edit is allowed, so the term itself is the only candidate (it
+		// carries its own prefix); there is no automaton for distance 0
+		return []string{term}, []float64{1.0}, nil
+	}
+
 	automatons, err := getLevAutomatons(term, fuzziness)
 	if err != nil {
 		return nil, nil, err
